@@ -81,7 +81,7 @@ func c15Strings(rng *rand.Rand, n int, exh int) []string {
 func c15Run(flow string, api bool, redir string, id int) c15Case {
 	cfg := Cfg{Mods: []string{"auth", "otp", "oauth2", "logout"}, Totp: true, Sms: true, LockAfter: 3, LockWindow: 300, LockDuration: 3600,
 		ExpireAfter: 600, RecoverDur: 3600, Mount: "/auth", API: api, LogoutMethod: "POST", MailMethod: "POST", Unauthed: "redirect",
-		Providers: []string{"google"}, Whitelist: []string{}, Preserve: []string{}}
+		Providers: []string{"google"}, Whitelist: []string{}, Preserve: []string{}, OneTime: true}
 	r, err := newRun(cfg, int64(id))
 	c := c15Case{ID: id, Flow: flow, API: api, Redir: hx(redir), Default: hx("/ok/login")}
 	if err != nil {
